@@ -422,3 +422,60 @@ func (L *Loaded) scanFuncTables() {
 		}
 	}
 }
+
+// scanGlobalStructs: package-level struct variables whose fields are set to
+// constants by the package initialiser and never stored to afterwards
+// (e.g. ociauth.CatalogScope).
+type globalField struct {
+	Field int
+	Const *ssa.Const
+}
+
+func (L *Loaded) scanGlobalStructs() {
+	L.globalStructs = map[*ssa.Global][]globalField{}
+	for _, p := range L.prog.AllPackages() {
+		if !L.isRepoPkg(p.Pkg) {
+			continue
+		}
+		init := p.Func("init")
+		if init == nil {
+			continue
+		}
+		for _, b := range init.Blocks {
+			for _, in := range b.Instrs {
+				s, ok := in.(*ssa.Store)
+				if !ok {
+					continue
+				}
+				fa, ok := s.Addr.(*ssa.FieldAddr)
+				if !ok {
+					continue
+				}
+				g, ok := fa.X.(*ssa.Global)
+				if !ok {
+					continue
+				}
+				c, ok := s.Val.(*ssa.Const)
+				if !ok {
+					continue
+				}
+				L.globalStructs[g] = append(L.globalStructs[g], globalField{fa.Field, c})
+			}
+		}
+	}
+	// stores through FieldAddr of a global outside init make it mutable
+	for f := range L.allFuncs {
+		if f.Name() == "init" {
+			continue
+		}
+		for _, b := range f.Blocks {
+			for _, in := range b.Instrs {
+				if s, ok := in.(*ssa.Store); ok {
+					if g, ok := rootAddr(s.Addr).(*ssa.Global); ok {
+						delete(L.globalStructs, g)
+					}
+				}
+			}
+		}
+	}
+}
